@@ -50,7 +50,7 @@ SessionOutcomeOk(role, frames, o) ==
 
 SessionWhy(role, frames, o) ==
     IF o.panics # 0 THEN "a task panicked"
-    ELSE IF o.hung # 0 THEN "an operation never returned (wedged)"
+    ELSE IF o.hung # 0 THEN "an operation never returned (wedged) or a task computed for seconds without yielding"
     ELSE IF ~o.other_session THEN "another session was affected"
     ELSE IF MustContinue(role, frames) /\ o.closed THEN "frames that are inert by the protocol ended the session"
     ELSE IF ~o.closed THEN "the session stayed open but no longer works correctly (sibling stream or new opens broken)"
